@@ -15,6 +15,13 @@ update-scheduling model of C02 (`VncModel.Update`) and the region model of C11:
   rfbSetScale / rfbScalingSetup / rfbSendNewScaleSize as far as geometry and the pending flag go
   PointerEvent -> rfbDefaultPtrAddEvent (screen cursor position)
 
+rfbNewFramebuffer as of /repo 97571f8 / 3cc7e2f first collects (and references) exactly the clients the
+iterator yields — the open ones — locks them, and later updates and unlocks that same set; in the
+model that is the `isOpen` test of `newFbClient` (records that are closed but not yet reaped are
+skipped, see `corpus/C16/teardown-after-resize.ops`).  Failure / teardown arms: `updateFail`
+(write of the size message or update fails: rfbCloseClient), `updateExtFail` (the application's
+getExtDesktopScreenHook fails: the size message is dropped), `drop` (read of a client message fails).
+
 The model follows the code WITH the two C16 fixes applied:
   fixes/C16-newfb-scaled-screens.diff  rfbNewFramebuffer resizes / reformats / re-renders every
       scaled version of the framebuffer (the unfixed code leaves them untouched: old size, old
@@ -78,6 +85,15 @@ inductive Op where
   | setDesktopSize (id : Nat) (w h nscreens : Int) (hook : Hook)
   | newFramebuffer (w h bpp : Int) (tok : Nat)
   | update (id : Nat)
+  /-- rfbUpdateClient while the peer is gone: the write of whatever would be sent fails,
+  rfbSendUpdateBuf / rfbWriteExact call rfbCloseClient -/
+  | updateFail (id : Nat)
+  /-- rfbUpdateClient while the application's getExtDesktopScreenHook fails: rfbSendExtDesktopSize
+  returns FALSE after it has reset reason / status, nothing is sent, the client stays connected -/
+  | updateExtFail (id : Nat)
+  /-- the connection is lost while a message of the client is being read (rfbReadExact <= 0 ->
+  rfbCloseClient), e.g. a truncated SetDesktopSize -/
+  | drop (id : Nat)
   deriving Repr
 
 /-- one server-to-client message -/
@@ -200,6 +216,16 @@ def sendUpdate (s : Screen) (c : Client) : Client × Obs :=
 def updateClient (s : Screen) (c : Client) : Client × Obs :=
   if updatePending s c then sendUpdate s c else (c, {})
 
+/-- rfbCloseClient: the socket is invalidated; the record stays in the list until it is reaped -/
+def closeClient (c : Client) : Client := { c with base := { c.base with isOpen := false } }
+
+/-- a failing write closes the client exactly when something was to be written -/
+def updateClientFail (s : Screen) (c : Client) : Client :=
+  if (updateClient s c).2.msgs.isEmpty then (updateClient s c).1 else closeClient (updateClient s c).1
+
+/-- the extended size message whose screen list the application fails to supply is dropped -/
+def extFails (c : Client) : Bool := c.useNewFBSize && c.pending && c.useExt
+
 /-- new size of a scaled version (fixes/C16-newfb-scaled-screens.diff): same reduction, at least 1 -/
 def rescale (oldFull newFull scaledDim : Int) : Int :=
   let v := scaledDim * newFull / oldFull
@@ -292,6 +318,17 @@ def step (st : State) : Op → State × Obs
      match getClient st id with
      | some c => (updateClient st.scr c).2
      | none => {})
+  | .updateFail id =>
+    (modClient st id (fun c => updateClientFail st.scr c),
+     match getClient st id with
+     | some c => { acc := (updateClient st.scr c).2.acc }
+     | none => {})
+  | .updateExtFail id =>
+    (modClient st id (fun c => (updateClient st.scr c).1),
+     match getClient st id with
+     | some c => if extFails c then {} else (updateClient st.scr c).2
+     | none => {})
+  | .drop id => (modClient st id closeClient, {})
 
 /-- run a history, collecting the observations (oldest first) -/
 def run (st : State) : List Op → State × List Obs
